@@ -1026,8 +1026,12 @@ coap_op_dyn_resource_added(coap_session_t *session,
     if (!coap_string_equal(resource_name, name)) {
       /* Copy across non-matching entry */
       if (!coap_op_dyn_resource_write(fp_new, e_proto, (coap_str_const_t *)name,
-                                      (coap_bin_const_t *)raw_packet))
-        break;
+                                      (coap_bin_const_t *)raw_packet)) {
+        /* keep the old file: the copy is incomplete */
+        coap_delete_string(name);
+        coap_delete_binary(raw_packet);
+        goto fail;
+      }
     }
     coap_delete_string(name);
     name = NULL;
@@ -1101,8 +1105,12 @@ coap_op_resource_deleted(coap_context_t *context,
     if (!coap_string_equal(resource_name, name)) {
       /* Copy across non-matching entry */
       if (!coap_op_dyn_resource_write(fp_new, e_proto, (coap_str_const_t *)name,
-                                      (coap_bin_const_t *)raw_packet))
-        break;
+                                      (coap_bin_const_t *)raw_packet)) {
+        /* keep the old file: the copy is incomplete */
+        coap_delete_string(name);
+        coap_delete_binary(raw_packet);
+        goto fail;
+      }
     }
     coap_delete_string(name);
     name = NULL;
